@@ -40,10 +40,22 @@ def project_iface(i, declared, names=NAMES):
         except Exception:
             return ('unsplittable:' + repr(s),)
     meths = {}
+    # a second interface of the same remote object declares every name with two arguments: naming interface i in a
+    # call must still mean i's own declaration - and nothing at all where i declares no such member
+    comp = interface.DBusInterface('org.verif.Companion', *[interface.Method(n, arguments='ii') for n in names], noRegister=True)
     for n in names:
         m = i.methods.get(n)
         if m is None:
             meths[n] = dict(NOM)
+            if i.name != comp.name:
+                for order in ([i, comp], [comp, i]):
+                    h2 = _Handler()
+                    ro2 = objects.RemoteDBusObject(h2, 'x.y', '/p', order)
+                    try:
+                        ro2.callRemote(n, 1, 2, interface=i.name)
+                        meths[n] = {'p': True, 'ins': ('proxy accepts a call to a member this interface does not declare',), 'outs': ()}
+                    except (TypeError, AttributeError):
+                        pass
             continue
         ins, outs = split(m.sigIn), split(m.sigOut)
         if m.nargs != len(ins) or m.nret != len(outs):
@@ -62,6 +74,20 @@ def project_iface(i, declared, names=NAMES):
             ins = ('proxy accepts %r args' % (acc,),) + ins
         elif h.conn.calls and h.conn.calls[-1][1].get('signature') != (m.sigIn):
             ins = ('proxy sends signature %r' % (h.conn.calls[-1][1].get('signature'),),) + ins
+        else:
+            for order in ([i, comp], [comp, i]):
+                h2 = _Handler()
+                ro2 = objects.RemoteDBusObject(h2, 'x.y', '/p', order)
+                try:
+                    ro2.callRemote(n, *range(len(ins)), interface=i.name)
+                    kw = h2.conn.calls[-1][1]
+                    if kw.get('interface') != i.name or kw.get('signature') != m.sigIn:
+                        ins = ('call naming the interface is sent as %r %r' % (kw.get('interface'), kw.get('signature')),) + ins
+                except (TypeError, AttributeError) as ex:
+                    if len(ins) != 2 or True:
+                        ins = ('call naming the interface is refused (%s)' % type(ex).__name__,) + ins
+                if ins and isinstance(ins[0], str) and ins[0].startswith('call naming'):
+                    break
         meths[n] = {'p': True, 'ins': ins, 'outs': outs}
     sigs = {}
     for n in names:
@@ -119,10 +145,20 @@ class IntrospectDriver:
 
     def do_Declare(self, n, d, register):
         mem = build_members(d)
+        # every other definition is built in steps, the way an application extends an interface it already published:
+        # members that are shared with another interface, added after the XML was rendered once
+        late = mem[-2:] if len(self.objs) % 2 == 1 else []
+        first = mem[:len(mem) - len(late)]
+        if late:
+            interface.DBusInterface('org.verif.Shared', *late, noRegister=True)       # they already belong to this one
         if register:
-            i = interface.DBusInterface(n, *mem)
+            i = interface.DBusInterface(n, *first)
         else:
-            i = interface.DBusInterface(n, *mem, noRegister=True)
+            i = interface.DBusInterface(n, *first, noRegister=True)
+        if late:
+            i.introspectionXml
+            for m in late:
+                {interface.Method: i.addMethod, interface.Signal: i.addSignal, interface.Property: i.addProperty}[type(m)](m)
         self.objs.append((i, True))
         self.result = ()
 
